@@ -23,7 +23,12 @@ Binding B: every function found in the live base environment, in every bundled
 module and in the legacy base environment is applied to argument tuples from a
 pool of container-bearing values; the rendering of the whole pool after every
 call is logged and the log is validated by TLC against Heap_Trace.tla: only
-the first argument of a documented mutator may change.
+the first argument of a documented mutator may change.  Every call event also
+records which of the containers passed to the call the returned value IS and
+which it HOLDS (identity of the implementation's objects); Heap_Trace accepts
+that only for the documented mutators, selectors and constructors
+(HeapOps.tla ResultIndependent): `chunks(l, n)` handing out `l` as its only
+piece is rejected.
 """
 import io
 import itertools
@@ -612,7 +617,8 @@ def replay_graph(run, g, pool):
 
 # ------------------------------------------------------------ binding B
 POOL_SRC = ["[]", "[1, 2, 3]", "[3, 1, 2]", "[[1], [2]]", "<<>>", "<<1, 2>>", "<<<>>>",
-            "<<<'a' => 1>>>", "<*m=1, n=[1]*>", "'abc'", "0", "2", "NULL", "fn(x) x"]
+            "<<<'a' => 1>>>", "<*m=1, n=[1]*>", "'abc'", "0", "2", "NULL", "fn(x) x",
+            "3"]        # (3 = the length of p2 / p3: a size at which "the whole list" is one piece)
 MODULE_FILES_DIR = os.path.join(REPO, "src", "ckl", "modules")
 SKIP_FUNCS = {"exit", "run", "sleep", "execute"}      # would leave / block the process
 # functions whose documented result holds an argument (HeapOps.tla HolderFns and the mutators): only
@@ -1028,8 +1034,13 @@ def run(run):
         "reference, so only literal evaluation and `s[i] = ch` on a string held by one name are compared",
         "identity of results (same host object) is reported as drift only; independence is judged by "
         "what names read after a later mutation",
-        "binding B looks only at the pool values before/after a call, not at results or errors (C13); "
-        "functions returning one of their arguments (identity, if_null, ...) are listed as drift",
+        "binding B looks at the pool values before/after a call and at whether the returned value is / holds "
+        "one of the containers passed (not at the result's content or at errors: C13, C19); functions whose "
+        "documented result is or holds an argument (HeapOps.tla SelectorFns, HolderFns, EchoFns, the mutators) "
+        "are exempt and listed as drift `B-result-is-its-argument`; sharing the ELEMENTS of an argument "
+        "(shallow copies) is not judged",
+        "string results that are the argument string (string(s), replace without a match, esc, chunks('abc', 5)[0], "
+        "identity ...) are drift only: the statement names lists, sets, maps and objects",
         "B runs in the secure interpreter: natives that touch the OS are not bound there and are not swept",
     ]
 
